@@ -42,6 +42,9 @@ def cases(ctx):
     n = 3000 if q else 60000
     out += dc.random_cases(rng, n, 7 if q else 9, (0, 1, 2, 3, 5), inners=("sq", "eu"), pens=(0, 0, 1, 2),
                            mss=(0, 0, 0, 2, 3), mlds=(-1, -1, -1, 1, 3), mds=(0, 0, 0, 5, 9, 15), psi_prob=0.5)
+    # thresholds on the cost lattice: both engines must treat "equal to max_dist" alike
+    out += dc.random_cases(rng, n // 3, 7, (0, 1, 2, 3), inners=("sq", "eu"), pens=(0, 0, 1), mds=(2, 4, 6, 8),
+                           psi_prob=0.3)
     out += dc.random_cases(rng, n // 3, 7, (-3, -1, 0, 2), S=2, inners=("sq", "eu"), pens=(0, 1, 3), mss=(0, 0, 5),
                            psi_prob=0.3)
     # multivariate (ndim 2, 3): point alphabets with integer pairwise Euclidean distances
